@@ -2,6 +2,8 @@ package main
 
 import (
 	"net/netip"
+	"strconv"
+	"strings"
 
 	"verifharness/internal/wire"
 )
@@ -63,4 +65,31 @@ func findings(path string) {
 		line("c20:kubevirt-tproxy-double-capture", a.redirect == 15001 && a.tproxy == 15006,
 			"in_TPROXY_mode_the_same_packet_is_handed_to_TPROXY_(15006)_in_mangle_and_redirected_(15001)_in_nat")
 	}
+	// Validate admits 64 owner groups; from 50 on the one rule listing them is longer than iptables-restore's parser
+	// holds (254 arguments, 5 words per group + 4, + 3 of its own) and the real tool refuses the whole input
+	g := defaultRaw()
+	var groups []string
+	for i := 0; i < 50; i++ {
+		groups = append(groups, strconv.Itoa(2000+i))
+	}
+	g.OwnerGroupsInclude = strings.Join(groups, ",")
+	if res := runReal(g); res.status == "ok" {
+		long := 0
+		for _, l := range res.v4 {
+			if n := len(strings.Fields(l)); n > long {
+				long = n
+			}
+		}
+		line("c20:owner-groups-over-argc-limit", long > 251,
+			"50_owner_groups_pass_Validate_(limit_64)_and_give_one_rule_of_"+strconv.Itoa(long)+"_words;_iptables-restore_holds_251_and_refuses_the_input")
+	} else {
+		line("c20:owner-groups-over-argc-limit", false, "50_owner_groups:_"+res.status)
+	}
+	// CleanupOnly leaves a chain that is only a jump target: no proxy identity, DNS capture with IPv4 servers only,
+	// IPv6 on - the IPv6 raw table declares ISTIO_OUTPUT_DNS / ISTIO_PRERT_DNS without a rule in them
+	k := defaultRaw()
+	k.ProxyUID, k.ProxyGID, k.RedirectDNS, k.DNSV4, k.IPv6 = ",", ",", true, []string{"10.96.0.10"}, true
+	v := applyCase(k, k, []string{"apply", "same", "0", "0", "1", "0", "ok"})
+	line("c20:cleanup-leaves-jump-target-only-chain", strings.HasPrefix(v, "OBS apply:cleanup-leaves-jump-target-only-chain"),
+		"CleanupOnly_over_its_own_rules:_"+strings.ReplaceAll(v, " ", "_"))
 }
